@@ -1044,6 +1044,11 @@ class ModelBuilder:
                         end_date = start_date
                     project["end"] = end_date
 
+        if start_date and project["end"] is None:
+            # The grammar allows a header without duration, but nothing can be scheduled
+            # into a project that has no end: reject it instead of failing later.
+            raise ValueError("project needs a duration (e.g. '+4w') after its start date")
+
         # Apply project attributes
         self._apply_project_attributes(project, proj_data.get("attributes", []))
 
